@@ -160,7 +160,7 @@ void FaultNet::install()
 		if (active && tape && (!filter || filter(dg))) {
 			uint32_t v = tape->below(1000);
 			if (v < p_drop) decision = 1;
-			else if (v < p_drop + p_dup) decision = 2;
+			else if (v < p_drop + p_dup) decision = n_total > 4000 ? 0 : 2;   // duplication storms are cut off (cost, not semantics: plain delivery is always allowed)
 			else if (v < p_drop + p_dup + p_delay) decision = 3;
 		}
 		if (on_decision) on_decision(dg, decision);
